@@ -24,7 +24,8 @@ What is proved here, and about which model:
     `Model/GenSites.lean` never indexes outside its argument list — for every argument list
     and any sub-generator that does not panic itself. Pre-repair counterexamples: `(and)`,
     `(mdef (hash) …)`.
-§5  VM: see the end of the file.
+§5  VM: the typed pops and the other primitive stack operations neither panic on stacks without
+    nil cells nor create one (restore: as long as it only truncates); see the end of the file.
 
 The front-end models themselves (`Lexer.step`/`feed`, `Parser.run (topLoop …)`,
 `Pratt.expandBlock`) are total Lean functions whose result types have no panic outcome at all;
@@ -38,7 +39,6 @@ theorem). The full statement `C01NoPanic` is kept visible in §5; its proved par
 import ZygoVerif.Model.Parser
 import ZygoVerif.Model.FrontSites
 import ZygoVerif.Model.LegacyGenSites
-import ZygoVerif.Model.LegacyVM
 import ZygoVerif.Proofs.C01GenSites
 import ZygoVerif.Proofs.C01VM
 import ZygoVerif.Generated.PanicSites
@@ -69,45 +69,47 @@ def Classified : List (String × Cover) :=
     ("Generator.GenerateBegin", .sites), ("Generator.GenerateBreak", .sites), ("Generator.GenerateBuilder", .residual),
     ("Generator.GenerateCallBySymbol", .sites), ("Generator.GenerateCond", .sites), ("Generator.GenerateContinue", .sites),
     ("Generator.GenerateDef", .sites), ("Generator.GenerateDefmac", .sites), ("Generator.GenerateDefn", .sites),
-    ("Generator.GenerateFn", .sites), ("Generator.GenerateForLoop", .sites), ("Generator.GenerateLet", .sites),
-    ("Generator.GenerateMacexpand", .sites), ("Generator.GenerateMultiDef", .sites), ("Generator.GenerateNewScope", .sites),
-    ("Generator.GeneratePackage", .sites), ("Generator.GenerateReturn", .sites), ("Generator.GenerateShortCircuit", .sites),
-    ("Generator.GenerateSyntaxQuote", .sites), ("Generator.GetLHS", .residual), ("Generator.generateSyntaxQuoteHash", .residual),
-    ("Generator.generateSyntaxQuoteList", .residual), ("GoStructRegistryType.register", .residual), ("HashCountKeys", .residual),
-    ("InfixArgsToArray", .behaviour), ("Lexer.DecodeAtom", .sites), ("Lexer.GetNextToken", .behaviour),
-    ("Lexer.LexNextRune", .behaviour), ("Lexer.PeekNextToken", .sites), ("Lexer.PromoteNextStream", .behaviour),
-    ("Lexer.Reset", .behaviour), ("Lexer.twoback", .behaviour), ("ListToArray", .behaviour),
-    ("MakeHash", .residual), ("MakeList", .behaviour), ("NewClosing", .behaviour),
-    ("NewPratt", .behaviour), ("NewPrompter", .residual), ("Parser.ParseBacktickString", .behaviour),
-    ("Parser.ParseBlockComment", .behaviour), ("Parser.ParseExpression", .sites), ("Pratt.Advance", .behaviour),
-    ("Pratt.Expression", .behaviour), ("Pratt.LabeledFor", .behaviour), ("PrintState.SetSeen", .residual),
-    ("Prompter.Getline", .residual), ("Prompter.getExpressionWithLiner", .residual), ("RecordDefn.SexpString", .residual),
-    ("RegisteredType.Init", .residual), ("Repl", .residual), ("Scope.Show", .residual),
-    ("Scope.UpdateSymbolInScope", .residual), ("SetHashKeyOrder", .residual), ("SexpArray.SexpString", .residual),
-    ("SexpArray.Type", .residual), ("SexpArraySelector.AssignToSelection", .residual), ("SexpArraySelector.RHS", .residual),
-    ("SexpArraySelector.sliceBounds", .residual), ("SexpClosureEnv.SexpString", .residual), ("SexpField.AlignString", .residual),
-    ("SexpField.FieldWidths", .residual), ("SexpField.SexpString", .residual), ("SexpFunction.IsLazyFormal", .behaviour),
-    ("SexpFunction.SetClosing", .residual), ("SexpFunction.SetFormalSymbols", .behaviour), ("SexpHash.HashGet", .residual),
-    ("SexpHash.HashGetDefault", .residual), ("SexpHash.HashSet", .residual), ("SexpHash.SetMethodList", .residual),
-    ("SexpHash.SexpString", .residual), ("SexpHash.nestedPathGetSet", .residual), ("SexpHashSelector.RHS", .residual),
-    ("SexpInterfaceDecl.SexpString", .residual), ("SexpPair.SexpString", .residual), ("SexpSymbol.AssignToSelection", .residual),
-    ("Stack.BindSymbol", .sites), ("Stack.Clone", .behaviour), ("Stack.Get", .sites),
-    ("Stack.GetExpr", .sites), ("Stack.GetExpressions", .sites), ("Stack.GetTop", .sites),
-    ("Stack.Pop", .sites), ("Stack.PopAddr", .sites), ("Stack.PopExpr", .sites),
-    ("Stack.PrintStack", .residual), ("Stack.Push", .sites), ("Stack.Show", .residual),
-    ("Stack.TruncateToSize", .sites), ("Stack.lookupSymbol", .behaviour), ("Stack.nestedPathGetSet", .residual),
-    ("StringToRunes", .behaviour), ("Zlisp.CallFunction", .sites), ("Zlisp.DetectSigils", .residual),
-    ("Zlisp.Duplicate", .residual), ("Zlisp.EliminateColonAndCommaFromArgs", .residual), ("Zlisp.FilterArray", .residual),
-    ("Zlisp.FindLoop", .behaviour), ("Zlisp.FunctionCallNameTypeCheck", .residual), ("Zlisp.GetStackTrace", .residual),
-    ("Zlisp.MakeSymbol", .residual), ("Zlisp.Run", .sites), ("Zlisp.compareArray", .residual),
+    ("Generator.GenerateFn", .sites), ("Generator.GenerateForLoop", .sites), ("Generator.GenerateInclude", .residual),
+    ("Generator.GenerateLet", .sites), ("Generator.GenerateMacexpand", .sites), ("Generator.GenerateMultiDef", .sites),
+    ("Generator.GenerateNewScope", .sites), ("Generator.GeneratePackage", .sites), ("Generator.GenerateQuote", .residual),
+    ("Generator.GenerateReturn", .sites), ("Generator.GenerateShortCircuit", .sites), ("Generator.GenerateSyntaxQuote", .sites),
+    ("Generator.GetLHS", .residual), ("Generator.generateSyntaxQuoteHash", .residual), ("Generator.generateSyntaxQuoteList", .residual),
+    ("GoStructRegistryType.register", .residual), ("HashCountKeys", .residual), ("InfixArgsToArray", .behaviour),
+    ("Lexer.DecodeAtom", .sites), ("Lexer.GetNextToken", .behaviour), ("Lexer.LexNextRune", .behaviour),
+    ("Lexer.PeekNextToken", .sites), ("Lexer.PromoteNextStream", .behaviour), ("Lexer.Reset", .behaviour),
+    ("Lexer.twoback", .behaviour), ("ListToArray", .behaviour), ("MakeHash", .residual),
+    ("MakeList", .behaviour), ("NewClosing", .behaviour), ("NewPratt", .behaviour),
+    ("NewPrompter", .residual), ("Parser.ParseBacktickString", .behaviour), ("Parser.ParseBlockComment", .behaviour),
+    ("Parser.ParseExpression", .sites), ("Pratt.Advance", .behaviour), ("Pratt.Expression", .behaviour),
+    ("Pratt.LabeledFor", .behaviour), ("PrintState.SetSeen", .residual), ("Prompter.Getline", .residual),
+    ("Prompter.getExpressionWithLiner", .residual), ("RecordDefn.SexpString", .residual), ("RegisteredType.Init", .residual),
+    ("Repl", .residual), ("Scope.Show", .residual), ("Scope.UpdateSymbolInScope", .residual),
+    ("SetHashKeyOrder", .residual), ("SexpArray.SexpString", .residual), ("SexpArray.Type", .residual),
+    ("SexpArraySelector.AssignToSelection", .residual), ("SexpArraySelector.RHS", .residual), ("SexpArraySelector.sliceBounds", .residual),
+    ("SexpClosureEnv.SexpString", .residual), ("SexpField.AlignString", .residual), ("SexpField.FieldWidths", .residual),
+    ("SexpField.SexpString", .residual), ("SexpFunction.IsLazyFormal", .behaviour), ("SexpFunction.SetClosing", .residual),
+    ("SexpFunction.SetFormalSymbols", .behaviour), ("SexpHash.HashGet", .residual), ("SexpHash.HashGetDefault", .residual),
+    ("SexpHash.HashSet", .residual), ("SexpHash.SetMethodList", .residual), ("SexpHash.SexpString", .residual),
+    ("SexpHash.nestedPathGetSet", .residual), ("SexpHashSelector.RHS", .residual), ("SexpInterfaceDecl.SexpString", .residual),
+    ("SexpPair.SexpString", .residual), ("SexpSymbol.AssignToSelection", .residual), ("Stack.BindSymbol", .sites),
+    ("Stack.Clone", .behaviour), ("Stack.Get", .sites), ("Stack.GetExpr", .sites),
+    ("Stack.GetExpressions", .sites), ("Stack.GetTop", .sites), ("Stack.Pop", .sites),
+    ("Stack.PopAddr", .sites), ("Stack.PopExpr", .sites), ("Stack.PrintStack", .residual),
+    ("Stack.Push", .sites), ("Stack.Show", .residual), ("Stack.TruncateToSize", .sites),
+    ("Stack.lookupSymbol", .behaviour), ("Stack.nestedPathGetSet", .residual), ("StringToRunes", .behaviour),
+    ("Zlisp.CallFunction", .sites), ("Zlisp.DetectSigils", .residual), ("Zlisp.Duplicate", .residual),
+    ("Zlisp.EliminateColonAndCommaFromArgs", .residual), ("Zlisp.FilterArray", .residual), ("Zlisp.FindLoop", .behaviour),
+    ("Zlisp.FunctionCallNameTypeCheck", .residual), ("Zlisp.GetStackTrace", .residual), ("Zlisp.MakeSymbol", .residual),
+    ("Zlisp.PrepareCallExprArgs", .behaviour), ("Zlisp.Run", .sites), ("Zlisp.compareArray", .residual),
     ("Zlisp.showStackHelper", .residual), ("arrayOpMunchLeft", .behaviour), ("baseConstruct", .residual),
-    ("buildSexpFun", .sites), ("decodeGoToSexpHelper", .residual), ("dotGetSetHelper", .residual),
-    ("dotOpMunchLeft", .behaviour), ("errIfPrivate", .residual), ("fillJsonMap", .residual),
-    ("forOpMunchRightWithLabel", .behaviour), ("getQuotedSymbol", .residual), ("lowerGoFor", .behaviour),
-    ("lowerRangeBinding", .behaviour), ("lowerRangeFor", .behaviour), ("makeSortedSlicesFromMap", .residual),
-    ("normalizeArraySelector", .behaviour), ("panicOn", .residual), ("parseRangeTargets", .behaviour),
-    ("processDumpCommand", .residual), ("reflectName", .residual), ("sliceBoundLiteralBeforeColon", .behaviour),
-    ("splitOnSemicolons", .behaviour), ("stripAnyDotPrefix", .residual) ]
+    ("bindsName", .residual), ("buildSexpFun", .sites), ("decodeGoToSexpHelper", .residual),
+    ("dotGetSetHelper", .residual), ("dotOpMunchLeft", .behaviour), ("errIfPrivate", .residual),
+    ("fillJsonMap", .residual), ("forOpMunchRightWithLabel", .behaviour), ("getQuotedSymbol", .residual),
+    ("lazyCallPositions", .residual), ("lowerGoFor", .behaviour), ("lowerRangeBinding", .behaviour),
+    ("lowerRangeFor", .behaviour), ("makeSortedSlicesFromMap", .residual), ("normalizeArraySelector", .behaviour),
+    ("panicOn", .residual), ("parseRangeTargets", .behaviour), ("processDumpCommand", .residual),
+    ("reflectName", .residual), ("sliceBoundLiteralBeforeColon", .behaviour), ("splitOnSemicolons", .behaviour),
+    ("stripAnyDotPrefix", .residual) ]
 
 /-- `names` occurs in `table` as a subsequence (both sorted the same way): every name is
 classified. Linear in the two lengths — string comparison is slow in the kernel. -/
@@ -197,48 +199,25 @@ theorem peek_guards_index (extra : Nat) : ∀ (fuel : Nat) (s s' : PState) (t : 
           · simp at h
           · exact ih _ _ _ h
 
-/-- `lexer.tokens[i]` as the Go code performs it: `none` = index out of range (a panic). -/
-def tokAtChecked (i : Nat) : Prog (Option Token) := do
-  let _ ← waitPeek i
-  let ts ← getToks
-  pure ts[i]?
-
-theorem run_pure' {α} (a : α) (s : PState) : Parser.run (pure a : Prog α) s = (.ret a, s) := rfl
-
-/-- The look-ahead never indexes the token queue out of range — for every parser state,
-every look-ahead distance and whatever input is still to come. -/
-theorem lookahead_index_in_range (i : Nat) (s : PState) :
-    ∀ s', Parser.run (tokAtChecked i) s ≠ (.ret none, s') := by
-  intro s' h
-  simp only [tokAtChecked, waitPeek, getToks, bind, Prog.bind, Parser.run] at h
-  split at h
-  · rename_i t s1 hp
+/-- The look-ahead never indexes the token queue out of range: the out-of-range arm of
+`peekAt` (`lexer.tokens[i]` after `ParserPeekNextToken(i)`) is dead — for every parser state,
+every look-ahead distance, every continuation and whatever input is still to come. -/
+theorem lookahead_index_in_range {α : Type} (i : Nat) (k : Token → Prog α) (s : PState) :
+    Parser.run (.peekAt i k) s =
+      (match peekWaitRun i (s.size + 1) s with
+       | .tok _ s' => Parser.run (k (s'.lex.tokens.getD i Token.zero)) s'
+       | .stop st s' => (.stop st, s')) := by
+  cases hp : peekWaitRun i (s.size + 1) s with
+  | tok t s1 =>
     have hlt := peek_guards_index i _ _ _ _ hp
-    rw [run_pure', List.getElem?_eq_getElem hlt] at h
-    injection h with h1 _
-    injection h1 with h1
-    cases h1
-  · injection h with h1 _
-    cases h1
+    rw [Parser.run, hp]
+    simp only [List.getElem?_eq_getElem hlt, List.getD_eq_getElem?_getD, Option.getD_some]
+  | stop st s1 =>
+    rw [Parser.run, hp]
 
 example : ∃ s : PState, ∃ t s', peekWaitRun 1 10 s = .tok t s' :=
   ⟨{ lex := { (LexState.init) with tokens := [⟨.symbol, ['a']⟩, ⟨.colonOperator, [':']⟩], stream := some [] } },
    _, _, rfl⟩
-
-/-- `tokAt` (the model's look-ahead) never takes its out-of-range branch: it is `tokAtChecked`
-with the `none` case mapped to a parse error, and that case does not occur. -/
-theorem tokAt_eq_checked (i : Nat) (s : PState) :
-    Parser.run (tokAt i) s = (match Parser.run (tokAtChecked i) s with
-      | (.ret (some t), s') => (.ret t, s')
-      | (.ret none, s') => (.stop .err, s')
-      | (.stop st, s') => (.stop st, s')) := by
-  simp only [tokAt, tokAtChecked, waitPeek, getToks, bind, Prog.bind, Parser.run]
-  split
-  · rename_i t s1 hp
-    have hlt := peek_guards_index i _ _ _ _ hp
-    rw [run_pure', List.getElem?_eq_getElem hlt]
-    rfl
-  · rfl
 
 /-! ## §3 Lexer: dumpBuffer / DecodeAtom / DecodeChar -/
 
@@ -380,48 +359,49 @@ theorem mdef_refuses_list_target :
 open ZygoVerif.VM in
 /-- The full statement for the VM model: from a state whose stacks hold no nil cell, running
 any loaded program with any fuel leaves the stacks free of nil cells, and the run can end in a
-host panic only with an empty scope stack (the `panic("empty stack!!")` of `Stack.BindSymbol`:
-excluded for generated code by the scope balance of C04, not by this file). -/
+host panic only with an empty scope stack (the `panic("empty stack!!")` of `Stack.BindSymbol`). -/
 def C01NoPanic : Prop :=
   ∀ (fuel : Nat) (s : St), VMSafe.Good s →
     VMSafe.Good ((VM.run fuel).run s).2 ∧
     (((VM.run fuel).run s).1 = .error .panic → ((VM.run fuel).run s).2.linear = [])
 
 open ZygoVerif.VM in
-/-- Proved part: the primitive stack operations of the VM (typed pops `PopExpr`,
-`PopExpressions`, the argument check of `CallFunction`, `wrangleOptargs`,
-`captureControlState`/`restoreControlState` with the repaired `TruncateToSize`, scope pops,
-stack-mark pops, jumps) keep every stack free of nil cells and do not panic on such stacks;
-the only primitive that can still panic is `LexicalBindSymbol` on an EMPTY scope stack
-(`panic("empty stack!!")` in `Stack.BindSymbol`). Missing for `C01NoPanic`: the induction
-over the mutually recursive interpreter functions (`run`, `exec`, `callResolved`, `nested`,
-`builtin`, …) that lifts these lemmas to whole runs, and the scope-stack balance of generated
-code (C04) that excludes the empty-scope-stack bind. Both are held by the `eval`/`crash`
-correspondence of every run. -/
+/-- Proved part. The typed pops of the VM (`PopExpr`, `PopExpressions`, the argument check
+of `CallFunction`, `wrangleOptargs`, scope pops, stack-mark pops) and the binding of a symbol
+neither panic on stacks without nil cells nor create a nil cell, and `restoreControlState`
+does not either AS LONG AS the recorded sizes do not exceed the present ones (`Fits`); the one
+remaining panic is `LexicalBindSymbol` on an EMPTY scope stack, and then the scope stack is
+empty in the final state.
+Missing for `C01NoPanic`: (1) `Fits` at every `restoreControlState` and a non-empty scope
+stack at every bind — the stack balance of generated code, C04's theorem, not available as a
+hypothesis-free fact about `VM.run`; without it `TruncateToSize` PADS the stack with nil
+cells (`restore_can_pad` below: the mechanism of every `StackElem is nil` host panic met on
+the pinned tree; its witnesses were retired by the repo fixes that made `(begin)`,
+`(newScope)`, `(return)`, selector assignment … leave exactly one value, and the crash search
+finds no witness on the current tree); (2) the induction over the mutually recursive
+interpreter functions (`run`, `exec`, `callResolved`, `nested`, `builtin`, …) that lifts these
+lemmas to whole runs. Both are held by the `eval`/`crash` correspondence of every run. -/
 theorem c01_no_panic_partial :
     (∀ s, VMSafe.Good s → VMSafe.SafeAt s popData) ∧
     (∀ n s, VMSafe.Good s → VMSafe.SafeAt s (popN n)) ∧
-    (∀ c s, VMSafe.Good s → VMSafe.SafeAt s (restore c)) ∧
+    (∀ c s, VMSafe.Good s → VMSafe.Fits c s → VMSafe.SafeAt s (restore c)) ∧
     (∀ f n s, VMSafe.Good s → VMSafe.SafeAt s (callFunction f n)) ∧
     (∀ n s, VMSafe.Good s → VMSafe.SafeAt s (popScopes n)) ∧
     (∀ l k fuel s, VMSafe.Good s → VMSafe.SafeAt s (popToMark l k fuel)) ∧
     (∀ x v s, VMSafe.Good s → VMSafe.SafeAt s (bindTop x v)) :=
-  ⟨VMSafe.popData_safe, VMSafe.popN_safe, fun c s h => VMSafe.restore_safe c s h, VMSafe.callFunction_safe,
+  ⟨VMSafe.popData_safe, VMSafe.popN_safe, VMSafe.restore_safe, VMSafe.callFunction_safe,
    VMSafe.popScopes_safe, VMSafe.popToMark_safe, VMSafe.bindTop_safe⟩
 
 example : VMSafe.Good VM.initSt := VMSafe.good_init
+example : VMSafe.Fits ⟨0, 0, 0, 0, 1, 0⟩ VM.initSt := by
+  refine ⟨Nat.zero_le _, Nat.zero_le _, ?_⟩
+  simp [VM.initSt]
 
 open ZygoVerif.VM in
-/-- Before fix C01-01 `restoreControlState` could grow the data stack with a nil cell, and the
-typed pop of `Run` that follows panicked the host: the state left by `(+ 1 (cond true (begin)
-2))` (the nested `Run` has popped the caller's operand; the captured size is 1). -/
-theorem legacy_truncate_counterexample :
-    ((do Legacy.restoreData ⟨0, 0, 0, 0, 1, 1⟩; popData : M Core.Val).run { VM.initSt with data := [] }).1
+/-- The latent path: `restoreControlState` with a recorded size above the present one grows
+the data stack with a nil cell, and the typed pop of `Run` that follows is a host panic. -/
+theorem restore_can_pad :
+    ((do restore ⟨0, 0, 0, 0, 1, 1⟩; popData : M Core.Val).run { VM.initSt with data := [] }).1
       = .error .panic := rfl
-
-open ZygoVerif.VM in
-/-- … the repaired truncation leaves the stack empty and the pop is an ordinary error. -/
-theorem truncate_no_longer_pads :
-    ((do restore ⟨0, 0, 0, 0, 1, 1⟩; popData : M Core.Val).run { VM.initSt with data := [] }).1 = .error .err := rfl
 
 end ZygoVerif.C01
